@@ -56,6 +56,25 @@ def run(chk):
                                                 else "reads differ from the model" if o["reads"] != exp_reads else "content or error")
             key = "replay:" + ("panic" if o["panic"] else "delivery" if o["delivered"] != b["delivered"] else "reads")
             chk.violation(key, "packets %s cut at %d: %s" % (b["lens"], b["cut"], what), {"behaviour": b, "observed": o})
+    # the packet that answers a command (write_packet_with_ack) is one packet whatever it is - the acknowledgement or something with a
+    # body: the reader goes on exactly behind it
+    acks = []
+    for a in (0, 1, 2, 4, 17, 253, 254, 255, 256, 300):
+        for rest in ([0], [3, 0], [255, 1]):
+            for piece in (0, 1, 2, 5):
+                n = a + sum(rest) + 40
+                acks.append({"lens": [a] + rest, "cut": 10 ** 9, "reads": [[0, piece]] * (n // piece + 12) if piece else [], "ack_first": True})
+    apath, aopath = os.path.join(wd, "ack.ndjson"), os.path.join(wd, "ack.out.ndjson")
+    vlib.write_ndjson(apath, acks)
+    vlib.harness_run(binary, ["transport-replay", apath, aopath])
+    for b, o in zip(acks, vlib.read_ndjson(aopath)):
+        if o["panic"] or o["delivered"] != b["lens"][1:] or not o["same"]:
+            chk.violation("ack-first:%s" % ("panic" if o["panic"] else "delivery"),
+                          "a packet with a body of %d bytes where the acknowledgement is expected, packets with %s behind it: read on as %s%s" % (
+                              b["lens"][0], b["lens"][1:], o["delivered"], "" if o["same"] else " with different content"),
+                          {"behaviour": {k: b[k] for k in ("lens", "ack_first")}, "piece": b["reads"][0][1] if b["reads"] else 0,
+                           "observed": {k: o[k] for k in ("delivered", "same", "panic", "errored")}})
+    chk.cov["answer_position_cases"] = len(acks)
     if uniq:
         chk.sample({"behaviour": {k: uniq[0][k] for k in ("lens", "cut", "delivered")}, "reads": uniq[0]["reads"][:12]})
     # 3. impl -> spec: real writer + real reader under random chunkings, every body length (thorough)
